@@ -170,11 +170,20 @@ FILE_skip(struct archive *a, void *client_data, int64_t request)
 #ifdef __ANDROID__
 			new_offset = lseek(fileno(mine->f), skip, SEEK_CUR);
 #elif HAVE__FSEEKI64
-			new_offset = _fseeki64(mine->f, skip, SEEK_CUR);
+			if (_fseeki64(mine->f, skip, SEEK_CUR) == 0)
+				new_offset = _ftelli64(mine->f);
+			else
+				new_offset = -1;
 #elif HAVE_FSEEKO
-			new_offset = fseeko(mine->f, skip, SEEK_CUR);
+			if (fseeko(mine->f, skip, SEEK_CUR) == 0)
+				new_offset = ftello(mine->f);
+			else
+				new_offset = -1;
 #else
-			new_offset = fseek(mine->f, skip, SEEK_CUR);
+			if (fseek(mine->f, skip, SEEK_CUR) == 0)
+				new_offset = ftell(mine->f);
+			else
+				new_offset = -1;
 #endif
 			if (new_offset >= 0)
 				return (new_offset - old_offset);
